@@ -332,10 +332,35 @@ def c20(rng, tier, repo):
     C.add_repo(repo)
     viol, n, distinct, samples = [], 0, 0, []
     utils = os.path.join(repo, 'utils')
-    for i in range(6 if tier == 'quick' else 80):
+    # plain generated repositories, then the same with one file whose name is portable but unusual (the names for which
+    # the agreement lemmas of contracts/utils_scripts.py fail; a nested files/files/ directory for the AUX path rule)
+    variants = [None] * (6 if tier == 'quick' else 80) + ['manifest-like-name', 'timestamp-outside-metadata', 'nested-files-dir',
+                                                            'category-without-packages']
+    for i, variant in enumerate(variants):
         with C.Scratch() as root:
             cats, pkgs = gen_repo(root, rng, with_ignored=False)
-            desc = {'categories': cats, 'packages': pkgs}
+            desc = {'categories': cats, 'packages': pkgs, 'variant': variant}
+            sfx = '' if variant is None else ':' + variant
+            if variant == 'manifest-like-name':
+                with open(os.path.join(root, 'profiles', 'Manifest.txt'), 'w') as fh:
+                    fh.write('not a Manifest')
+            elif variant == 'timestamp-outside-metadata':
+                with open(os.path.join(root, 'profiles', 'timestamp.x'), 'w') as fh:
+                    fh.write('ts')
+            elif variant == 'nested-files-dir':
+                if not pkgs:
+                    continue
+                os.makedirs(os.path.join(root, pkgs[0], 'files', 'files'))
+                os.makedirs(os.path.join(root, pkgs[0], 'files', 'conf-files'))
+                for rel_ in ('files/files/bar.init', 'files/conf-files/bar.conf'):
+                    with open(os.path.join(root, pkgs[0], rel_), 'w') as fh:
+                        fh.write(rel_)
+            elif variant == 'category-without-packages':
+                os.makedirs(os.path.join(root, 'dev-empty'))
+                with open(os.path.join(root, 'dev-empty', 'metadata.xml'), 'w') as fh:
+                    fh.write('<catmetadata/>')
+                with open(os.path.join(root, 'profiles', 'categories'), 'a') as fh:
+                    fh.write('dev-empty\n')
             if len(samples) < 2:
                 samples.append(desc)
             p = subprocess.run([sys.executable, os.path.join(utils, 'gen_fast_metamanifest.py'), root],
@@ -343,24 +368,24 @@ def c20(rng, tier, repo):
             n += 1
             distinct += 1
             if p.returncode != 0:
-                viol.append(dict(desc, what='C20 gen_fast_metamanifest failed: %s' % p.stderr[-300:], key='fast-run', props=['C20']))
+                viol.append(dict(desc, what='C20 gen_fast_metamanifest failed: %s' % p.stderr[-300:], key='fast-run' + sfx, props=['C20']))
                 continue
             v = C.run_cli(['verify', root])
             if v != 0:
-                viol.append(dict(desc, what='C20 tree written by the fast scripts does not verify: %r' % (v,), key='fast-verify', props=['C20']))
+                viol.append(dict(desc, what='C20 tree written by the fast scripts does not verify: %r' % (v,), key='fast-verify' + sfx, props=['C20']))
                 continue
             probs = C.describes_exactly(root, ['BLAKE2B', 'SHA512'])
             if probs:
-                viol.append(dict(desc, what='C20 fast scripts: %s' % probs[:3], key='fast-describes', props=['C20']))
+                viol.append(dict(desc, what='C20 fast scripts: %s' % probs[:3], key='fast-describes' + sfx, props=['C20']))
             before = manifests_of(root)
             st = C.run_cli(['update', '--profile', 'ebuild', root])
             after = manifests_of(root)
             if st != 0:
-                viol.append(dict(desc, what='C20/C18 gemato update -p ebuild after the fast scripts: %r' % (st,), key='fast-update-status', props=['C20', 'C18']))
+                viol.append(dict(desc, what='C20/C18 gemato update -p ebuild after the fast scripts: %r' % (st,), key='fast-update-status' + sfx, props=['C20', 'C18']))
                 continue
             changed = sorted(k for k in set(before) | set(after) if strip_ts(before.get(k, b'')) != strip_ts(after.get(k, b'')))
             if changed:
-                viol.append(dict(desc, what='C20 update on the untouched tree changed %s' % changed[:4], key='fast-noop', props=['C20']))
+                viol.append(dict(desc, what='C20 update on the untouched tree changed %s' % changed[:4], key='fast-noop' + sfx, props=['C20']))
             # edits, then update restores a verifying tree
             edits = []
             if pkgs:
@@ -377,13 +402,13 @@ def c20(rng, tier, repo):
             v = C.run_cli(['verify', root]) if st == 0 else None
             n += 1
             if st != 0 or v != 0:
-                viol.append(dict(desc, what='C20 after edits %r: update %r verify %r' % (edits, st, v), key='fast-edit', props=['C20']))
+                viol.append(dict(desc, what='C20 after edits %r: update %r verify %r' % (edits, st, v), key='fast-edit' + sfx, props=['C20']))
             # single directory script
             if pkgs:
                 p2 = subprocess.run([sys.executable, os.path.join(utils, 'gen_fast_manifest.py'), os.path.join(root, pkgs[0])],
                                     capture_output=True, text=True, timeout=120)
                 if p2.returncode != 0:
-                    viol.append(dict(desc, what='C20 gen_fast_manifest failed: %s' % p2.stderr[-200:], key='fast-single', props=['C20']))
+                    viol.append(dict(desc, what='C20 gen_fast_manifest failed: %s' % p2.stderr[-200:], key='fast-single' + sfx, props=['C20']))
     return viol, n, distinct, samples
 
 
